@@ -558,7 +558,7 @@ def run_c03(tier, seed, prop='C03'):
         'state for deduplication is concrete: directory listing + file bytes / sqlite rows',
         'serialized=False (import-based) archives are explored in the natural environment of this sandbox: tmpfs timestamps with ns resolution, no bytecode written, \'\' on sys.path',
     ])
-    depth, states = (3, 250) if tier == 'quick' else (5, 2500)
+    depth, states = (3, 250) if tier == 'quick' else (5, 1200)       # (2500 states per configuration took about an hour)
     cfgs = c03_configs(tier) if prop == 'C03' else c04_configs(tier)
     tasks = []
     for c in cfgs:
@@ -567,7 +567,7 @@ def run_c03(tier, seed, prop='C03'):
         if fam in ('sql', 'sqlmem'):
             d = 3 if tier == 'quick' else 4
         if c.get('narrow'):
-            d, s = (4, 600) if tier == 'quick' else (6, 6000)
+            d, s = (4, 600) if tier == 'quick' else (6, 2500)
         tasks.append((prop, c, d, s))
     for res in pool.run_configs(explore, tasks, seed=seed):
         rep.merge(res)
